@@ -369,6 +369,25 @@ func otherOp(b *el.Broker, op string) error {
 	case "RemoveNodeUnknown":
 		_ = b.RemoveNode(ctx, "nosuch")
 		return nil
+	case "FailingCalls":
+		// calls that fail in every validation branch: none of them may leave the Broker locked
+		_ = b.RemovePipeline("nosuchtype", "p")
+		_ = b.RemovePipeline("", "p")
+		_, _ = b.RemovePipelineAndNodes(ctx, "nosuchtype", "p")
+		_, _ = b.RemovePipelineAndNodes(ctx, "inner", "nosuch")
+		_ = b.RegisterPipeline(el.Pipeline{PipelineID: "bad", EventType: "inner", NodeIDs: []el.NodeID{"nosuch"}})
+		_ = b.RegisterPipeline(el.Pipeline{PipelineID: "bad", EventType: "inner", NodeIDs: []el.NodeID{"sink", "fmt"}})
+		_ = b.RegisterPipeline(el.Pipeline{PipelineID: "inner", EventType: "inner", NodeIDs: []el.NodeID{"fmt", "sink"}}, el.WithPipelineRegistrationPolicy(el.DenyOverwrite))
+		_ = b.RegisterPipeline(el.Pipeline{PipelineID: "inner", EventType: "inner", NodeIDs: []el.NodeID{"fmt", "sink"}})
+		_ = b.RegisterNode("", &plain{typ: el.NodeTypeFilter})
+		_ = b.RegisterNode("deny", &plain{typ: el.NodeTypeFilter}, el.WithNodeRegistrationPolicy(el.DenyOverwrite))
+		_ = b.RegisterNode("deny", &plain{typ: el.NodeTypeFilter})
+		_ = b.RemoveNode(ctx, "fmt")
+		_ = b.RemoveNode(ctx, "")
+		_ = b.SetSuccessThreshold("", 1)
+		_ = b.SetSuccessThreshold("inner", -1)
+		_ = b.SetSuccessThresholdSinks("inner", -1)
+		return nil
 	}
 	panic("unknown op " + op)
 }
@@ -395,7 +414,7 @@ func allScenarios(r *hc.Rand, repeat int) []Scenario {
 			add(Scenario{Kind: "reenter-reopen", Op: "Reopen", Target: "other", Parked: parked})
 			// every other operation issued while a re-entrant Send is in flight
 			for _, op := range []string{"RegisterNode", "RegisterPipeline", "RemovePipeline", "SetSuccessThreshold", "SetSuccessThresholdSinks",
-				"SuccessThreshold", "SuccessThresholdSinks", "IsAnyPipelineRegistered", "Reopen", "RemoveNodeUnknown"} {
+				"SuccessThreshold", "SuccessThresholdSinks", "IsAnyPipelineRegistered", "Reopen", "RemoveNodeUnknown", "FailingCalls"} {
 				add(Scenario{Kind: "concurrent-op", Op: op, Target: "other", Depth: 2, Parked: parked})
 			}
 			// the gated filter wired to the same broker with 0..3 pending groups
